@@ -185,6 +185,18 @@ pub fn eval(ctx: &Ctx, case: &Case) {
                     return;
                 }
             }
+            // the key as a verifier usually obtains it: decoded from its compressed and uncompressed SEC1 bytes
+            for comp in [true, false] {
+                let enc = sm2::encode_point(&pk_ref, comp);
+                ctx.call();
+                match guard(|| gm_sm2::key::Sm2PublicKey::new(&enc).and_then(|k| k.verify(id_static, &msg, &want))) {
+                    Guard::Done(Ok(())) => {}
+                    other => {
+                        ctx.violation("Sm2PublicKey::verify", &format!("reference-signature-rejected/key-decoded-from-{}-bytes", if comp { "compressed" } else { "uncompressed" }), format!("d={} -> {}", hexbig(&d), gdbg(&other)), cj());
+                        return;
+                    }
+                }
+            }
             // and a signature over another message is still refused under that key object
             let mut other_msg = msg.clone();
             other_msg.push(0);
